@@ -1,5 +1,5 @@
 """Property -> rules.  Each property's check runs the listed rules; the texts go into the evidence."""
-from .rules import tab, enc, cas, dsk, wid
+from .rules import tab, enc, cas, dsk, wid, rel
 
 RULESETS = {}
 RULESETS.update(tab.RULES)
@@ -7,6 +7,7 @@ RULESETS.update(enc.RULES)
 RULESETS.update(cas.RULES)
 RULESETS.update(dsk.RULES)
 RULESETS.update(wid.RULES)
+RULESETS.update(rel.RULES)
 
 PROPS = {}
 
@@ -31,3 +32,4 @@ prop("C07", ["DSK-1", "DSK-2", "DSK-3", "DSK-4", "DSK-12"], "x", "y")
 prop("C08", ["DSK-1", "DSK-2", "DSK-4", "DSK-6", "DSK-7", "DSK-12"], "x", "y")
 prop("C15", ["DSK-6", "DSK-7", "DSK-12"], "x", "y")
 prop("C12", ["WID-1", "WID-3", "WID-5", "LAY-5", "ENC-4", "TAB-3"], "x", "y")
+prop("C03", ["REL-1", "REL-3", "REL-5"], "x", "y")
